@@ -8,28 +8,38 @@
 // command log.  Each case carries the flow (as the items of Model/BootSim.v),
 // the observations and a hash table; Coq re-runs the model on it.
 //
+// Sessions: a boot may run on a *tpm.TPM (and *types.State) object that served earlier boots and was
+// recycled the way the repository's own callers do it (Reset(); DoNotUse_ResetNoInit(), alone or
+// followed by an assignment of SupportedAlgos).  Every boot is a case of its own; the model starts
+// it from the state it claims the recycled object to be in (c_start), whatever the earlier boots
+// were; the description of the case lists the earlier boots.
+//
 // The oracle (independent of the model, written from the property text):
 //
-//	(a) for flows of the well-formed kind (one startup, then measurements that
-//	    extend AND log: TPMEvent, TPMExtend of a digest directly followed by the
-//	    TPMEventLogAdd of the same digest, the PCR0_DATA pair; Panic steps and
-//	    refused re-initialisations in between): tpmeventlog.Replay(own log) ==
-//	    PCR for both PCRs and both banks (startup logged or locality 0),
-//	    tpm.EventLog.Replay(0, alg, startup locality) == PCR0.  A TPMEvent typed
-//	    EV_NO_ACTION that was extended is the open finding
-//	    C01-noaction-typed-event-extended: a replay of that PCR that differs is
-//	    reported as KNOWN, everything else as usual;
+//	(a) which flows the event-log clause speaks about is decided from the ITEMS alone (the ledger:
+//	    per PCR bank the digests the items extend -- a TPM that was not started, a PCR other than 0/1,
+//	    a bank other than SHA1/SHA256 refuse -- and the entries they log):
+//	    tpm.EventLog.Replay(0, alg, startup locality) == PCR0 for EVERY flow in which every extend of
+//	    the bank is logged (extend and log of the same bytes, in the same order), wherever LogInit's
+//	    startup entries and other EV_NO_ACTION entries are, at whatever locality, or absent;
+//	    tpmeventlog.Replay(own log) == PCR for both PCRs and both banks when moreover the startup can
+//	    be known from the log (one startup entry carrying the startup locality ahead of everything
+//	    else logged for the PCR0 bank, or none and locality 0; digests of the bank's size).  A TPMEvent
+//	    typed EV_NO_ACTION that was extended is the open finding C01-noaction-typed-event-extended: a
+//	    replay of that PCR that differs is reported as KNOWN, everything else as usual;
 //	(b0) every PCR bank value == the harness' own fold H(old || digest) (Go's
 //	    crypto) of the extends the command log records, from the startup value;
 //	(b) re-executing CommandLog.Commands() on a new TPM gives the same PCRs
-//	    (Apply by Apply for every flow, Commands.Apply for flows without issues);
+//	    (Apply by Apply for every flow, Commands.Apply for flows without issues); so does re-executing
+//	    it on a TPM object that executed it once before and was recycled; a recycled object is as if it
+//	    never received a command;
 //	(c) every digest extended/logged for a measurement == hash(ConvertedBytes),
 //	    ConvertedBytes == converter(concatenation in reference order of the
 //	    bytes read INDEPENDENTLY from the artifacts), extend and log-add of one
 //	    measurement carry the same digest; TPMInit / InitTPM / LogInit /
 //	    TPMEventLogAdd issue exactly the commands they stand for; a measurement
 //	    whose data cannot be read or whose extend is refused leaves no commands
-//	    and no MeasuredData entry.
+//	    and no MeasuredData entry; every TPM entry of MeasuredData was made by an action of this boot.
 //
 // Steps whose actions cannot be matched with their items (e.g. a LogInit that
 // logs one bank only) are reported as oracle failures with the flow as input.
@@ -867,6 +877,66 @@ func (p *platform) genWF() []*itemSpec {
 	return items
 }
 
+// genLogged: a flow in which every extend is logged, but whose informational entries are not where
+// the well-formed shape has them: the event log is set up later (or earlier) than the TPM -- LogInit
+// after, between or before the measurements --, at the startup locality or at another one, more
+// than once, or together with bare EV_NO_ACTION entries; before the startup also measurements the
+// TPM refuses (it was not started)
+func (p *platform) genLogged() []*itemSpec {
+	l := genLocality()
+	info := func() *itemSpec {
+		switch ctx.Rng.Intn(10) {
+		case 0, 1:
+			return &itemSpec{kind: "loginit", l: genLocality()}
+		case 2:
+			alg := pick[uint16](algSHA1, algSHA256)
+			return &itemSpec{kind: "logadd", p: pick[uint8](0, 0, 1), alg: alg, digest: rbytes(hsize(alg)), ty: evNoAct, evd: genEvd()}
+		case 3:
+			return &itemSpec{kind: "inittpm", l: pick(l, genLocality()), withLog: true} // refused, but logs again
+		}
+		return &itemSpec{kind: "loginit", l: l}
+	}
+	var items []*itemSpec
+	for n := pick(0, 0, 0, 1, 2); n > 0; n-- { // before the startup
+		switch ctx.Rng.Intn(4) {
+		case 0:
+			items = append(items, p.genEvent(false))
+		case 1:
+			items = append(items, &itemSpec{kind: "panic"})
+		default:
+			items = append(items, info())
+		}
+	}
+	if ctx.Rng.Intn(3) == 0 {
+		items = append(items, &itemSpec{kind: "init", l: l})
+	} else {
+		items = append(items, &itemSpec{kind: "inittpm", l: l, withLog: ctx.Rng.Intn(4) == 0})
+	}
+	n := pick(1, 2, 2, 3, 3, 4, 5)
+	late := ctx.Rng.Intn(n + 1) // where the (first) late informational item goes
+	for i := 0; i <= n; i++ {
+		if i == late || ctx.Rng.Intn(8) == 0 {
+			items = append(items, info())
+		}
+		if i == n {
+			break
+		}
+		switch {
+		case p.img.coq == "fw" && ctx.Rng.Intn(6) == 0:
+			items = append(items, &itemSpec{kind: "pcr0"})
+		case ctx.Rng.Intn(7) == 0:
+			items = append(items, p.genPair()...)
+		default:
+			it := p.genEvent(false)
+			if ctx.Rng.Intn(3) > 0 {
+				it.p = 0
+			}
+			items = append(items, it)
+		}
+	}
+	return items
+}
+
 // genGeneral: anything the constructors allow, in any order
 func (p *platform) genGeneral() []*itemSpec {
 	var items []*itemSpec
@@ -1400,10 +1470,10 @@ type runResult struct {
 	reuse   string        // how the TPM object of this boot was obtained (platform.reuse at the time of the boot)
 	earlier []interface{} // the boots the object served before
 	plat    *platform
-	steps [][]*itemSpec // executed TPM-relevant steps
-	flags [][]bool
-	proc  *bootengine.BootProcess
-	bad   string // the executed steps/actions cannot be matched with the intended items
+	steps   [][]*itemSpec // executed TPM-relevant steps
+	flags   [][]bool
+	proc    *bootengine.BootProcess
+	bad     string // the executed steps/actions cannot be matched with the intended items
 }
 
 // stepFlags: for the actions bound to items, whether an issue was recorded at their index
@@ -1946,6 +2016,10 @@ func judge(r *runResult) {
 	measuredBy := map[types.Action][]int{}
 	for i := range s.MeasuredData {
 		measuredBy[s.MeasuredData[i].Action] = append(measuredBy[s.MeasuredData[i].Action], i)
+		if _, ok := s.MeasuredData[i].TrustChain.(*tpm.TPM); ok && byAction[s.MeasuredData[i].Action] == nil {
+			expect(false, "State.MeasuredData holds a TPM measurement that no action of this boot's flow made (left over from an earlier boot of the recycled State?)",
+				"pkg/bootflow/types/state.go:Reset / AddMeasuredData")
+		}
 	}
 	for _, it := range items {
 		switch it.kind {
@@ -2179,9 +2253,12 @@ func main() {
 		p := mkPlat()
 		for boot := 0; i < nWF; boot++ {
 			var r *runResult
-			if boot == 0 || ctx.Rng.Intn(4) > 0 {
+			switch {
+			case ctx.Rng.Intn(5) == 0:
+				r = runGenerated("logged-gen", p, p.genLogged())
+			case boot == 0 || ctx.Rng.Intn(4) > 0:
 				r = runGenerated("wf-gen", p, p.genWF())
-			} else {
+			default:
 				r = runGenerated("general", p, p.genGeneral())
 			}
 			judge(r)
@@ -2242,5 +2319,5 @@ func main() {
 	}
 	probeUTF8()
 	probeNoAction()
-	ctx.Finish("per case: a boot flow built from the public constructors is run by bootengine on the real code; the model (Model/BootSim.v over Model/TPM.v, Model/EventLog.v, Model/Refs.v) is run on the same items with the case's hash table; compared: TPM.PCRValues, CommandLog, EventLog, ConvertedBytes of every MeasuredData entry, which actions had issues, tpmeventlog.Replay for both PCRs and banks, tpm.EventLog.Replay for both banks, PCRValues after re-executing the command log (Apply by Apply and Commands.Apply)")
+	ctx.Finish("per case: a boot flow built from the public constructors is run by bootengine on the real code, on a new TPM object or on the object of earlier boots recycled with Reset() / DoNotUse_ResetNoInit() (+ SupportedAlgos); the model (Model/BootSim.v over Model/TPM.v, Model/EventLog.v, Model/Refs.v) is run on the same items with the case's hash table; compared: TPM.PCRValues, CommandLog, EventLog, ConvertedBytes of every MeasuredData entry, which actions had issues, tpmeventlog.Replay for both PCRs and banks, tpm.EventLog.Replay for both banks, PCRValues after re-executing the command log (Apply by Apply and Commands.Apply)")
 }
